@@ -197,12 +197,15 @@ class _BaseLayout(MaildirLayout[_MaildirT], metaclass=ABCMeta):
             raise FileNotFoundError(path) from exc
 
     def add_folder(self, name: str, delimiter: str) -> None:
-        parts = self._split(name, delimiter)
-        for i in range(1, len(parts)):
-            path = self._get_path(parts[0:i])
-            if not os.path.isdir(path):
-                self.add_folder(self._join(parts[0:i], delimiter), delimiter)
+        self._add_folder(self._split(name, delimiter))
+
+    def _add_folder(self, parts: _Parts) -> None:
         path = self._get_path(parts)
+        if os.path.isdir(os.path.join(path, 'cur')):
+            raise FileExistsError(path)
+        for i in range(1, len(parts)):
+            if not os.path.isdir(self._get_path(parts[0:i])):
+                self._add_folder(parts[0:i])
         self._maildir(path, create=True)
         maildirfolder = os.path.join(path, 'maildirfolder')
         with open(maildirfolder, 'x'):
@@ -230,8 +233,7 @@ class _BaseLayout(MaildirLayout[_MaildirT], metaclass=ABCMeta):
             parts = dest_parts[0:i]
             path = self._get_path(parts)
             if not os.path.isdir(path):
-                name = self._join(parts, delimiter)
-                self.add_folder(name, delimiter)
+                self._add_folder(parts)
         self._rename_folder(source_parts, dest_parts)
 
 
